@@ -273,51 +273,7 @@ func c12(c *an.Check) {
 		c.Require(okk, "PROVENANCE", "peer."+w.fn+" forwards the caller's context and data", f, "", 1, "callee(key, context, data)", "wrapper does not forward its context/data parameters unchanged")
 	}
 	// ---- PANIC
-	if bce := peerBCE(c, "./peer", "./util/extra25519"); bce != nil {
-		fl := func(n int64, what string) func(s *an.State, v ssa.Value) (bool, string) {
-			return func(s *an.State, v ssa.Value) (bool, string) {
-				if l, ok := s.FixedLen(v); ok && l == n {
-					return true, fmt.Sprintf("%s has fixed length %d", what, n)
-				}
-				return false, fmt.Sprintf("%s is not known to have length %d", what, n)
-			}
-		}
-		pre := []an.Precond{
-			{Callee: cEdPublic, Desc: "ed25519.PrivateKey.Public needs a 64-byte key", Holds: func(s *an.State, call *ssa.Call) (bool, string) {
-				k := call.Call.Args[0]
-				if ok, w := fl(64, "key")(s, k); ok {
-					return true, w
-				}
-				if s.AnyFact(func(s *an.State, x, y ssa.Value, r an.Rel) bool {
-					return r == an.EQ && an.IsIntConst(y, 64) && an.LenOf(s, x, func(a ssa.Value) bool { return s.Key(a) == s.Key(k) })
-				}) {
-					return true, "len(key)==64 guard on this path"
-				}
-				return false, "key length is not established as 64"
-			}},
-			{Callee: cNewKeySeed, Desc: "ed25519.NewKeyFromSeed needs a 32-byte seed", Holds: func(s *an.State, call *ssa.Call) (bool, string) { return fl(32, "seed")(s, call.Call.Args[0]) }},
-			{Invoke: "Open", Desc: "XChaCha20-Poly1305 Open needs a 24-byte nonce", Holds: func(s *an.State, call *ssa.Call) (bool, string) { return fl(24, "nonce")(s, call.Call.Args[1]) }},
-			{Invoke: "Seal", Desc: "XChaCha20-Poly1305 Seal needs a 24-byte nonce", Holds: func(s *an.State, call *ssa.Call) (bool, string) { return fl(24, "nonce")(s, call.Call.Args[1]) }},
-			{Invoke: "Decrypt", Desc: "cipher.Block.Decrypt needs >= 16 bytes", Holds: func(s *an.State, call *ssa.Call) (bool, string) {
-				l, ok := s.FixedLen(call.Call.Args[1])
-				return ok && l >= 16, "fixed-size block operand"
-			}},
-			{Invoke: "Encrypt", Desc: "cipher.Block.Encrypt needs >= 16 bytes", Holds: func(s *an.State, call *ssa.Call) (bool, string) {
-				l, ok := s.FixedLen(call.Call.Args[1])
-				return ok && l >= 16, "fixed-size block operand"
-			}},
-		}
-		fns := []*ssa.Function{enc, dec, p.Func("peer", "", "EncryptToPubKey"), p.Func("peer", "", "DecryptWithPrivKey"), p.Func("util/extra25519", "", "PublicKeyToCurve25519"), p.Func("util/extra25519", "", "PrivateKeyToCurve25519")}
-		c.Totality(an.PanicSpec{Construct: "peer public-key encryption totality", Funcs: fns, BCE: bce, Min: 6, Preconds: pre, Reviewed: map[string]string{
-			"peer.EncryptToEd25519: bounds msgPrivKeyCurve25519[:32]":        "PrivateKeyToCurve25519 returns a 64-byte SHA-512 digest",
-			"peer.DecryptWithEd25519: bounds tPrivKeyCurve25519[:32]":        "PrivateKeyToCurve25519 returns a 64-byte SHA-512 digest",
-			"peer.EncryptToEd25519: assert to ed25519.PublicKey":             "crypto/ed25519 documents PrivateKey.Public() to return ed25519.PublicKey",
-			"peer.DecryptWithEd25519: assert to ed25519.PublicKey":           "crypto/ed25519 documents PrivateKey.Public() to return ed25519.PublicKey",
-			"util/extra25519.PrivateKeyToCurve25519: bounds privateKey[:32]": "callers pass ed25519 private keys (64 bytes): DecryptWithEd25519 guards len==64, EncryptToEd25519/DeriveKey pass NewKeyFromSeed results or typed std keys",
-			"util/extra25519.PrivateKeyToCurve25519: bounds digest[0]":       "digest is a SHA-512 sum (64 bytes)",
-			"util/extra25519.PrivateKeyToCurve25519: bounds digest[31]":      "digest is a SHA-512 sum (64 bytes)",
-		}})
-	}
+	peerEncryptTotality(c, "peer public-key encryption totality")
 	// NILDEREF: (pointer, error) results — curve points, ECDH keys, ciphers — are dereferenced only behind err == nil
 	{
 		fns := []*ssa.Function{enc, dec, p.Func("peer", "", "EncryptToPubKey"), p.Func("peer", "", "DecryptWithPrivKey")}
@@ -440,4 +396,61 @@ func init() {
 		Explain:     "Decides on SSA: (R1) DecryptWithEd25519 returns plaintext only past {len(key)==64, len(ciphertext)>=36, AES key ok, both Ed→Curve conversions valid, X25519 keys/ECDH ok, AEAD.Open ok, s2.Decode ok, ConstantTimeCompare(expected message key, received message key)!=0} and what it returns is s2.Decode of what Open authenticated; (MIRROR) encrypt and decrypt derive keys under the same three constant prefixes each concatenated with the caller's context, feed each KDF operands of mirrored roles, take the nonce from the nonce KDF, use the per-message public key as associated data, and split the ciphertext at offset 36; the PubKey/PrivKey wrappers forward context and data; (PANIC) every compiler-unproven bounds check, unchecked assertion and length-preconditioned crypto call (ed25519 Public/NewKeyFromSeed, AEAD nonce, AES block) in these functions is discharged by a path guard, a fixed-length producer or a reviewed reason.",
 		NotCov:      "round-trip equality and wrong-key/context rejection as values (they follow from the mirror under the trusted AEAD/KDF); s2/AEAD internals.",
 		Assumptions: commonAssumptions})
+}
+
+// peerEncryptTotality: PANIC obligations of the public-key encryption chain (shared by C12 and by properties whose
+// decoders call into it, e.g. envelope unsealing).
+func peerEncryptTotality(c *an.Check, construct string) {
+	p := c.P
+	enc := p.Func("peer", "", "EncryptToEd25519")
+	dec := p.Func("peer", "", "DecryptWithEd25519")
+	if enc == nil || dec == nil {
+		c.Undecided("PANIC", construct, nil, "unresolved anchor")
+		return
+	}
+	if bce := peerBCE(c, "./peer", "./util/extra25519"); bce != nil {
+		fl := func(n int64, what string) func(s *an.State, v ssa.Value) (bool, string) {
+			return func(s *an.State, v ssa.Value) (bool, string) {
+				if l, ok := s.FixedLen(v); ok && l == n {
+					return true, fmt.Sprintf("%s has fixed length %d", what, n)
+				}
+				return false, fmt.Sprintf("%s is not known to have length %d", what, n)
+			}
+		}
+		pre := []an.Precond{
+			{Callee: cEdPublic, Desc: "ed25519.PrivateKey.Public needs a 64-byte key", Holds: func(s *an.State, call *ssa.Call) (bool, string) {
+				k := call.Call.Args[0]
+				if ok, w := fl(64, "key")(s, k); ok {
+					return true, w
+				}
+				if s.AnyFact(func(s *an.State, x, y ssa.Value, r an.Rel) bool {
+					return r == an.EQ && an.IsIntConst(y, 64) && an.LenOf(s, x, func(a ssa.Value) bool { return s.Key(a) == s.Key(k) })
+				}) {
+					return true, "len(key)==64 guard on this path"
+				}
+				return false, "key length is not established as 64"
+			}},
+			{Callee: cNewKeySeed, Desc: "ed25519.NewKeyFromSeed needs a 32-byte seed", Holds: func(s *an.State, call *ssa.Call) (bool, string) { return fl(32, "seed")(s, call.Call.Args[0]) }},
+			{Invoke: "Open", Desc: "XChaCha20-Poly1305 Open needs a 24-byte nonce", Holds: func(s *an.State, call *ssa.Call) (bool, string) { return fl(24, "nonce")(s, call.Call.Args[1]) }},
+			{Invoke: "Seal", Desc: "XChaCha20-Poly1305 Seal needs a 24-byte nonce", Holds: func(s *an.State, call *ssa.Call) (bool, string) { return fl(24, "nonce")(s, call.Call.Args[1]) }},
+			{Invoke: "Decrypt", Desc: "cipher.Block.Decrypt needs >= 16 bytes", Holds: func(s *an.State, call *ssa.Call) (bool, string) {
+				l, ok := s.FixedLen(call.Call.Args[1])
+				return ok && l >= 16, "fixed-size block operand"
+			}},
+			{Invoke: "Encrypt", Desc: "cipher.Block.Encrypt needs >= 16 bytes", Holds: func(s *an.State, call *ssa.Call) (bool, string) {
+				l, ok := s.FixedLen(call.Call.Args[1])
+				return ok && l >= 16, "fixed-size block operand"
+			}},
+		}
+		fns := []*ssa.Function{enc, dec, p.Func("peer", "", "EncryptToPubKey"), p.Func("peer", "", "DecryptWithPrivKey"), p.Func("util/extra25519", "", "PublicKeyToCurve25519"), p.Func("util/extra25519", "", "PrivateKeyToCurve25519")}
+		c.Totality(an.PanicSpec{Construct: construct, Funcs: fns, BCE: bce, Min: 6, Preconds: pre, Reviewed: map[string]string{
+			"peer.EncryptToEd25519: bounds msgPrivKeyCurve25519[:32]":        "PrivateKeyToCurve25519 returns a 64-byte SHA-512 digest",
+			"peer.DecryptWithEd25519: bounds tPrivKeyCurve25519[:32]":        "PrivateKeyToCurve25519 returns a 64-byte SHA-512 digest",
+			"peer.EncryptToEd25519: assert to ed25519.PublicKey":             "crypto/ed25519 documents PrivateKey.Public() to return ed25519.PublicKey",
+			"peer.DecryptWithEd25519: assert to ed25519.PublicKey":           "crypto/ed25519 documents PrivateKey.Public() to return ed25519.PublicKey",
+			"util/extra25519.PrivateKeyToCurve25519: bounds privateKey[:32]": "callers pass ed25519 private keys (64 bytes): DecryptWithEd25519 guards len==64, EncryptToEd25519/DeriveKey pass NewKeyFromSeed results or typed std keys",
+			"util/extra25519.PrivateKeyToCurve25519: bounds digest[0]":       "digest is a SHA-512 sum (64 bytes)",
+			"util/extra25519.PrivateKeyToCurve25519: bounds digest[31]":      "digest is a SHA-512 sum (64 bytes)",
+		}})
+	}
 }
